@@ -2,10 +2,10 @@ package main
 
 import (
 	"fmt"
-	"hash/fnv"
 	"go/constant"
 	"go/token"
 	"go/types"
+	"hash/fnv"
 	"sort"
 	"strings"
 
@@ -90,19 +90,20 @@ type wstate struct {
 }
 
 type Walker struct {
-	P      *Program
-	Cfg    WalkConfig
-	Paths  []Path
-	Err    error
-	nframe int
-	loops  map[*ssa.Function]*loopInfo
-	Visits int
-	info   map[*ssa.Function]*fnInfo
-	seen   map[uint64]bool
-	allocs map[string]*ssa.Alloc
-	heap   map[string]bool
-	capt   map[*ssa.Alloc]bool
-	Merged int
+	P          *Program
+	Cfg        WalkConfig
+	Paths      []Path
+	Err        error
+	nframe     int
+	loops      map[*ssa.Function]*loopInfo
+	Visits     int
+	info       map[*ssa.Function]*fnInfo
+	seen       map[uint64]bool
+	allocs     map[string]*ssa.Alloc
+	heap       map[string]bool
+	capt       map[*ssa.Alloc]bool
+	allocNames map[*ssa.Function]map[string]int
+	Merged     int
 }
 
 func (st *wstate) clone() *wstate {
@@ -273,10 +274,10 @@ var pureCallees = map[string]bool{
 	"(time.Time).UnixNano": true, "(time.Time).UTC": true, "(time.Time).IsZero": true,
 	"lmdb.IsNotFound": true, "errors.Is": true,
 	"snapshot.(*DBI).Name": true, "snapshot.(*DBI).Flags": true, "snapshot.(*DBI).Transform": true,
-	"snapshot.TransformSupported":                  true,
-	"config.(Sweeper).RetentionDuration":           true,
+	"snapshot.TransformSupported":                   true,
+	"config.(Sweeper).RetentionDuration":            true,
 	"config.(Sweeper).RetentionDurationMinusCutoff": true,
-	"syncer.(*Syncer).instanceID":                  true, "syncer.(*Syncer).generationID": true,
+	"syncer.(*Syncer).instanceID":                   true, "syncer.(*Syncer).generationID": true,
 	"lmdbenv/limitscanner.(*LimitScanner).Key": true, "lmdbenv/limitscanner.(*LimitScanner).Val": true,
 	"lmdbenv/limitscanner.(LimitCursor).IsZero": true,
 	"lmdbenv/strategy.bytesToInt":               true, "lmdbenv/strategy.cmpIntegerLittleEndian": true,
@@ -284,8 +285,8 @@ var pureCallees = map[string]bool{
 	"encoding/binary.(bigEndian).Uint64": true, "encoding/binary.(bigEndian).Uint16": true,
 	"lmdbenv/header.getNumExtra": true,
 	"snapshot.expectWT":          true,
-	"csproto.DecodeVarint": true,
-	"csproto.SizeOfVarint": true,
+	"csproto.DecodeVarint":       true,
+	"csproto.SizeOfVarint":       true,
 }
 
 // noHeapEffect callees do not invalidate the abstract heap cells.
@@ -327,6 +328,9 @@ func (w *Walker) canon(st *wstate, fr *frame, v ssa.Value) string {
 }
 
 func simplifyDeref(addr string) string {
+	if strings.HasPrefix(addr, "&alloc:") {
+		return "local:" + addr[len("&alloc:"):] // unknown content of a local variable
+	}
 	if strings.HasPrefix(addr, "&") {
 		return addr[1:]
 	}
@@ -364,6 +368,8 @@ func (w *Walker) canonD(st *wstate, fr *frame, v ssa.Value, d int) string {
 		n := x.Comment
 		if n == "" {
 			n = x.Name()
+		} else if !w.uniqueAlloc(x) {
+			n += "." + x.Name()
 		}
 		s := "&alloc:" + n
 		if fr.id > 0 {
@@ -719,6 +725,9 @@ func (w *Walker) atomOf(st *wstate, fr *frame, v ssa.Value) (Atom, bool) {
 		s = s[1:]
 		neg = !neg
 	}
+	if a, ok := parseCmp(s); ok {
+		return mk(a)
+	}
 	if strings.HasPrefix(s, "bytes.Equal(") {
 		inner := strings.TrimSuffix(strings.TrimPrefix(s, "bytes.Equal("), ")")
 		if parts := splitTop(inner); len(parts) == 2 {
@@ -726,6 +735,41 @@ func (w *Walker) atomOf(st *wstate, fr *frame, v ssa.Value) (Atom, bool) {
 		}
 	}
 	return mk(Atom{Kind: "bool", A: s})
+}
+
+// parseCmp recognises a rendered comparison "(A op B)".
+func parseCmp(s string) (Atom, bool) {
+	if len(s) < 5 || s[0] != '(' || s[len(s)-1] != ')' {
+		return Atom{}, false
+	}
+	in := s[1 : len(s)-1]
+	depth := 0
+	for i := 0; i < len(in); i++ {
+		switch in[i] {
+		case '(', '[', '{':
+			depth++
+		case ')', ']', '}':
+			depth--
+		case ' ':
+			if depth != 0 {
+				continue
+			}
+			for op, r := range map[string]Rel{"<": LT, "<=": LE, "==": EQ, "!=": NE, ">": GT, ">=": GE} {
+				if strings.HasPrefix(in[i:], " "+op+" ") {
+					A, B := in[:i], in[i+len(op)+2:]
+					// operands must be balanced
+					if strings.Count(A, "(") != strings.Count(A, ")") {
+						continue
+					}
+					if B == "nil" || A == "nil" {
+						return Atom{}, false
+					}
+					return Atom{Kind: "cmp", Dom: "int", A: A, B: B, R: r}, true
+				}
+			}
+		}
+	}
+	return Atom{}, false
 }
 
 // splitTop splits "a, b" at top-level commas.
@@ -946,9 +990,13 @@ func (w *Walker) instrs(st *wstate, b *ssa.BasicBlock, from int) {
 			}
 			if !strings.HasPrefix(addr, "&alloc:") {
 				w.emit(st, Event{Kind: "store", Instr: in, Addr: addr, Val: val})
-			} else if _, isAlloc := in.Addr.(*ssa.Alloc); isAlloc {
-				// stores to captured locals are visible to closures: record
-				if a := in.Addr.(*ssa.Alloc); a.Heap {
+			} else {
+				// stores to escaping locals (captured, or pointed to) are recorded
+				base := addr
+				if i := strings.IndexAny(addr[len("&alloc:"):], ".["); i >= 0 {
+					base = addr[:len("&alloc:")+i]
+				}
+				if w.heap[base] && !strings.Contains(base, "varargs") {
 					w.emit(st, Event{Kind: "store", Instr: in, Addr: addr, Val: val})
 				}
 			}
@@ -1142,7 +1190,17 @@ func (w *Walker) call(st *wstate, b *ssa.BasicBlock, idx int, in *ssa.Call) bool
 				}
 			}
 			// unknown callee may modify heap cells: forget non-local cells
+			dynCall := strings.HasPrefix(name, "dyn:") || strings.Contains(name, "$")
+			takesFunc := dynCall
+			for _, a := range in.Call.Args {
+				if _, ok := a.Type().Underlying().(*types.Signature); ok {
+					takesFunc = true
+				}
+			}
 			for k := range st.store {
+				if strings.HasPrefix(k, "free:") && !dynCall {
+					continue // captured variables are written by this closure and its parent only
+				}
 				if !strings.HasPrefix(k, "&alloc:") {
 					delete(st.store, k)
 					continue
@@ -1152,8 +1210,8 @@ func (w *Walker) call(st *wstate, b *ssa.BasicBlock, idx int, in *ssa.Call) bool
 				if i := strings.IndexAny(k[len("&alloc:"):], ".["); i >= 0 {
 					base = k[:len("&alloc:")+i]
 				}
-				if w.heap[base] && w.captured(base) {
-					delete(st.store, k)
+				if w.heap[base] && takesFunc && w.captured(base) {
+					delete(st.store, k) // a closure that writes this local may be run by the callee
 				}
 			}
 		}
@@ -1183,6 +1241,30 @@ func (w *Walker) call(st *wstate, b *ssa.BasicBlock, idx int, in *ssa.Call) bool
 	return true
 }
 
+// uniqueAlloc: is the comment (variable name) of this alloc unique in its function?
+func (w *Walker) uniqueAlloc(a *ssa.Alloc) bool {
+	if w.allocNames == nil {
+		w.allocNames = map[*ssa.Function]map[string]int{}
+	}
+	fn := a.Parent()
+	m, ok := w.allocNames[fn]
+	if !ok {
+		m = map[string]int{}
+		for _, b := range fn.Blocks {
+			for _, in := range b.Instrs {
+				if al, ok := in.(*ssa.Alloc); ok {
+					m[al.Comment]++
+				}
+			}
+		}
+		for _, al := range fn.Locals {
+			m[al.Comment]++
+		}
+		w.allocNames[fn] = m
+	}
+	return m[a.Comment] <= 1
+}
+
 // captured: is the local bound into a closure (so that a callee can write it)?
 func (w *Walker) captured(base string) bool {
 	a, ok := w.allocs[base]
@@ -1205,7 +1287,36 @@ func (w *Walker) captured(base string) bool {
 		for _, r := range *rs {
 			switch x := r.(type) {
 			case *ssa.MakeClosure:
-				res = true
+				// written only if the closure stores through the free variable
+				fnc := x.Fn.(*ssa.Function)
+				for i, bnd := range x.Bindings {
+					if bnd != v || i >= len(fnc.FreeVars) {
+						continue
+					}
+					if frs := fnc.FreeVars[i].Referrers(); frs != nil {
+						for _, fr := range *frs {
+							switch y := fr.(type) {
+							case *ssa.Store:
+								if y.Addr == ssa.Value(fnc.FreeVars[i]) {
+									res = true
+								}
+							case *ssa.UnOp, *ssa.FieldAddr, *ssa.DebugRef:
+								if fa, ok := fr.(*ssa.FieldAddr); ok {
+									// field written through the captured struct variable
+									if fars := fa.Referrers(); fars != nil {
+										for _, q := range *fars {
+											if st, ok := q.(*ssa.Store); ok && st.Addr == ssa.Value(fa) {
+												res = true
+											}
+										}
+									}
+								}
+							default:
+								res = true // passed on, captured again, ...
+							}
+						}
+					}
+				}
 			case *ssa.Store:
 				if x.Val == v {
 					res = true // address stored somewhere
